@@ -422,6 +422,10 @@ func (maps *trackedMaps) trackTaggable(taggable Taggable, pointer string) error 
 
 	case taggableMap:
 		// the path just pointed at a field within taggable
+		if k := reflect.ValueOf(taggable).Kind(); k != reflect.Map && k != reflect.Ptr {
+			// (a struct passed by value: there is no map to keep track of)
+			return fmt.Errorf("%s: %T is not a valid taggable for pointer %q: %w", op, taggable, pointer, ErrInvalidParameter)
+		}
 		ptr := reflect.ValueOf(taggable).Pointer()
 
 		// Are we already tracking this map?
@@ -453,6 +457,10 @@ func (maps *trackedMaps) trackTaggable(taggable Taggable, pointer string) error 
 			return fmt.Errorf("%s: %w", op, err)
 		}
 		v := reflect.ValueOf(foundMap)
+		if k := v.Kind(); k != reflect.Map && k != reflect.Ptr {
+			// (the pointer leads through a struct held by value, a slice, ...)
+			return fmt.Errorf("%s: pointer %q leads into a %s, not into a map: %w", op, pointer, k, ErrInvalidParameter)
+		}
 		ptr := v.Pointer()
 
 		// Are we already tracking this map?
